@@ -124,7 +124,8 @@ let show_outcome_class = function Ok o -> "OK\t" ^ hex_of_str o | Err _ -> "ERR"
 (* the four iteration-order strategies tried for whole-pipeline cases *)
 let strategies =
   let idf x = x and revf x = List.rev x in
-  [ (all_pnames, idf, idf); (List.rev all_pnames, revf, revf); (all_pnames, revf, idf); (List.rev all_pnames, idf, revf) ]
+  [ (all_pnames, idf, idf, idf); (List.rev all_pnames, revf, revf, revf); (all_pnames, revf, idf, idf); (List.rev all_pnames, idf, revf, revf);
+    (all_pnames, idf, revf, idf); (all_pnames, revf, revf, idf) ]
 
 (* ---------- regular expressions for the equivalence oracle ---------- *)
 (* prefix form, space separated: e v b z | c K lo hi ... | k A B | a A B | s A *)
@@ -274,15 +275,15 @@ let run_case (fields : string list) : string =
     end
   | "parse" :: fs :: contents :: _ ->
     let f = fsys_of_arg fs and c = str_of_hex contents in
-    alternatives (List.map (fun (op, os, oi) ->
-        match parse_only op os oi scan_limit_parser_parse f c with
+    alternatives (List.map (fun (op, os, os2, oi) ->
+        match parse_only op os os2 oi scan_limit_parser_parse f c with
         | Ok r -> String.concat "\t" ["OK"; hex_of_str r.r_dest; (if r.r_flag_i then "i" else "") ^ (if r.r_flag_s then "s" else "") ^ "."; arg_of_strs r.r_prefixes; arg_of_strs r.r_suffixes]
         | Err _ -> "ERR" | Crash _ -> "CRASH") strategies)
   | "generate" :: evu :: evw :: sfu :: sfw :: nsu :: nsw :: fs :: contents :: _ ->
     let cfg = config_of_args evu evw sfu sfw nsu nsw in
     let f = fsys_of_arg fs and c = str_of_hex contents in
-    alternatives (List.map (fun (op, os, oi) ->
-        show_outcome_class (generate join cfg op os oi scan_limit_parser_parse scan_limit_assembler_assemble f c)) strategies)
+    alternatives (List.map (fun (op, os, os2, oi) ->
+        show_outcome_class (generate join cfg op os os2 oi scan_limit_parser_parse scan_limit_assembler_assemble f c)) strategies)
   | "equiv" :: excl :: fuel :: r1 :: r2 :: _ ->
     let ex = if excl = "." then [] else List.map (fun t -> n_of_int (int_of_string t)) (String.split_on_char ',' excl) in
     show_verdict (equivalent ex (nat_of_int (int_of_string fuel)) (re_of_arg r1) (re_of_arg r2))
